@@ -82,6 +82,22 @@ def _dataclasses(tree):
     return out
 
 
+def _str_norm(t):
+    """One identity about Python strings, applied bottom-up to a value tree: for a one-character separator `sep` and a
+    literal `lit` that does not contain it, `(a + lit).split(sep)[-1]` is `a.split(sep)[-1] + lit` (the last piece of
+    `a` is what follows its last separator; appending text without a separator only extends that piece)."""
+    if not isinstance(t, tuple):
+        return t
+    t = tuple(_str_norm(x) for x in t)
+    if (len(t) == 3 and t[0] == "sub" and t[2] == ("const", -1) and isinstance(t[1], tuple) and len(t[1]) == 4 and t[1][0] == "call" and t[1][3] == ()
+            and isinstance(t[1][1], tuple) and len(t[1][1]) == 3 and t[1][1][0] == "attr" and t[1][1][2] == "split" and len(t[1][2]) == 1):
+        recv, sep = t[1][1][1], t[1][2][0]
+        if (isinstance(recv, tuple) and len(recv) == 4 and recv[0] == "bin" and recv[1] == "+" and isinstance(recv[3], tuple) and recv[3][0] == "const" and isinstance(recv[3][1], str)
+                and isinstance(sep, tuple) and sep[0] == "const" and isinstance(sep[1], str) and len(sep[1]) == 1 and sep[1] not in recv[3][1]):
+            return ("bin", "+", ("sub", ("call", ("attr", recv[2], "split"), (sep,), ()), ("const", -1)), recv[3])
+    return t
+
+
 def scan(ctx):
     repo = ctx.repo
     # 1. resolution functions have the modelled form
@@ -91,8 +107,8 @@ def scan(ctx):
 
     for fn, (callee, want) in ENV_CALLS.items():
         hits, stopped = X.watch_calls(tree, path, fn, [callee])
-        got = {tuple(X.show(a) for a in args) + tuple("%s=%s" % (k_, X.show(v)) for k_, v in kw) for _c, args, kw in hits[callee]}
-        exp = tuple(X.show(X.parse_expr(w)) for w in want)
+        got = {tuple(X.show(_str_norm(a)) for a in args) + tuple("%s=%s" % (k_, X.show(_str_norm(v))) for k_, v in kw) for _c, args, kw in hits[callee]}
+        exp = tuple(X.show(_str_norm(X.parse_expr(w))) for w in want)
         if got != {exp}:
             raise Untranslatable("%s: %s is not called (only) with %s: %s (%s)" % (fn, callee, exp, sorted(got), stopped), None, path)
     # setup_engine: the engine class is looked up in direct.nn.<first part of the model name, lower case>.<the same>_engine,
